@@ -101,9 +101,15 @@ type exemption struct {
 }
 
 func exempted(ex []exemption, fn *ssa.Function, f *types.Var) (string, bool) {
-	name := FuncName(fn)
+	// the function itself, the function a literal is written in, and the function a transparent
+	// helper is inlined into (an exemption is about a phase of the object's life, not about a body)
+	names := []string{FuncName(fn), FuncName(outermost(fn)), FuncName(rootOfHelper(fn)), FuncName(rootOfHelper(outermost(fn))), FuncName(outermost(rootOfHelper(fn)))}
 	for _, e := range ex {
-		if !strings.HasSuffix(name, e.fnSuffix) && !strings.HasSuffix(FuncName(outermost(fn)), e.fnSuffix) {
+		hit := false
+		for _, name := range names {
+			hit = hit || strings.HasSuffix(name, e.fnSuffix)
+		}
+		if !hit {
 			continue
 		}
 		if e.fields == "" {
